@@ -628,6 +628,39 @@ def check_assign(ctx: Ctx, oid: str):
     ctx.ob(oid, "R16 PAIRED-EFFECTS", f, "assign records value, decision level, reason and trail entry of the same variable, once each", all(x in body for x in need) and sum(1 for x in body if x.startswith(("vals[", "levels[", "reasons[", "trail."))) == 4, f"{body}", node=f.node)
 
 
+def check_trail_ownership(ctx: Ctx, oid: str):
+    """A variable gets a value in assign() and loses it in unassign_to(), nowhere else; the trail grows in assign() and
+    shrinks in unassign_to(); the propagation pointer moves forward one entry at a time in propagate() and is pulled
+    back in unassign_to().  A value written past assign() has no level and no reason; an entry the pointer jumps over
+    is never propagated - clauses watched on it are never visited."""
+    f = ctx.func("sat", "solve_sat")
+    fns = [f] + [g for g in ctx.repo.callees(f) if g.qualname.startswith("solve_sat.")]
+    bad = []
+    n_sites = 0
+    for g in fns:
+        q = g.qualname
+        for n in own_nodes(g.node):
+            if isinstance(n, (ast.Assign, ast.AugAssign)):
+                tg = n.targets if isinstance(n, ast.Assign) else [n.target]
+                for t in tg:
+                    for e in t.elts if isinstance(t, ast.Tuple) else [t]:
+                        if isinstance(e, ast.Subscript) and ast.unparse(e.value) == "vals":
+                            n_sites += 1
+                            if q not in ("solve_sat.assign", "solve_sat.unassign_to"):
+                                bad.append((g, n, "a value is written"))
+                        if isinstance(e, ast.Name) and e.id == "prop_head":
+                            n_sites += 1
+                            ok = (q == "solve_sat" and ast.unparse(n) == "prop_head = 0" and cfg_of(g.node).node_of(n).loop is None) or (q == "solve_sat.propagate" and ast.unparse(n) == "prop_head += 1") or q == "solve_sat.unassign_to"
+                            if not ok:
+                                bad.append((g, n, "the propagation pointer is moved"))
+            if isinstance(n, ast.Call) and isinstance(n.func, ast.Attribute) and ast.unparse(n.func.value) == "trail" and n.func.attr in ("append", "extend", "insert", "pop", "clear", "remove"):
+                n_sites += 1
+                if (n.func.attr == "append" and q != "solve_sat.assign") or (n.func.attr != "append" and q != "solve_sat.unassign_to"):
+                    bad.append((g, n, "the trail is edited"))
+    ctx.floor("writes to vals / trail / prop_head in solve_sat", n_sites, 6)
+    ctx.ob(oid, "R27 WRITE-OWNERSHIP", bad[0][0] if bad else f, "values and trail entries are written by assign() and removed by unassign_to() only; the propagation pointer advances in propagate()'s queue loop and is pulled back by unassign_to() only", not bad, f"`{ast.unparse(bad[0][1])[:60]}` in {bad[0][0].qualname}: {bad[0][2]} outside its owner - " + "a literal put on the trail by hand has no level and no reason, and entries the pointer skips are never propagated (a clause whose watches they falsify is never visited, and a non-model is published)" if bad else "", node=bad[0][1] if bad else f.node)
+
+
 def check_variable_universe(ctx: Ctx, oid: str):
     """Every array of the solver is sized by n_vars: it must cover the variables of the clauses and of the assumptions
     (an assumed variable need not occur in any clause)."""
